@@ -273,15 +273,26 @@ def _ext_objects(ext):
                     ("nct", CM.PerMessageDeflateOffer(request_no_context_takeover=True),
                      {"request_no_context_takeover": True}),
                     ("w9", CM.PerMessageDeflateOffer(request_max_window_bits=9), {"request_max_window_bits": 9}),
+                    # the server decides on its own not to keep its compression context
+                    ("srvnct", CM.PerMessageDeflateOffer(), {"no_context_takeover": True}),
+                    ("srvw9", CM.PerMessageDeflateOffer(), {"window_bits": 9}),
                     ("mem1", CM.PerMessageDeflateOffer(), {"mem_level": 1}),
                     ("mem9", CM.PerMessageDeflateOffer(), {"mem_level": 9}),
                     # a per-message decompression limit above every message of the sequences (except
                     # 'big'): the limit is per message, a sequence of messages must pass
                     ("cap1100", CM.PerMessageDeflateOffer(), {"max_message_size": 1100})]
-        return [(n, o, (lambda offers, _k=k: next((CM.PerMessageDeflateOfferAccept(x, **_k) for x in offers
-                                                   if isinstance(x, CM.PerMessageDeflateOffer)), None)),
-                 (lambda r: CM.PerMessageDeflateResponseAccept(r) if isinstance(r, CM.PerMessageDeflateResponse) else None))
-                for n, o, k in variants]
+        out = [(n, o, (lambda offers, _k=k: next((CM.PerMessageDeflateOfferAccept(x, **_k) for x in offers
+                                                  if isinstance(x, CM.PerMessageDeflateOffer)), None)),
+                (lambda r: CM.PerMessageDeflateResponseAccept(r) if isinstance(r, CM.PerMessageDeflateResponse) else None))
+               for n, o, k in variants]
+        # the client decides on its own not to keep its compression context / to use a small window
+        for n, rk in (("clinct", {"no_context_takeover": True}), ("cliw9", {"window_bits": 9})):
+            out.append((n, CM.PerMessageDeflateOffer(),
+                        (lambda offers: next((CM.PerMessageDeflateOfferAccept(x) for x in offers
+                                              if isinstance(x, CM.PerMessageDeflateOffer)), None)),
+                        (lambda r, _k=rk: CM.PerMessageDeflateResponseAccept(r, **_k)
+                         if isinstance(r, CM.PerMessageDeflateResponse) else None)))
+        return out
     if ext == "bzip2":
         return [("default", CM.PerMessageBzip2Offer(),
                  lambda offers: next((CM.PerMessageBzip2OfferAccept(x) for x in offers
@@ -290,11 +301,20 @@ def _ext_objects(ext):
     if ext == "brotli":
         out = []
         for n, ok, ak in (("default", {}, {}), ("nct", {"request_no_context_takeover": True},
-                                                 {"request_no_context_takeover": True})):
+                                                 {"request_no_context_takeover": True}),
+                          # the server decides on its own not to keep its compression context
+                          ("srvnct", {}, {"no_context_takeover": True}),
+                          ("cnct", {"request_no_context_takeover": True}, {})):
             out.append((n, CM.PerMessageBrotliOffer(**ok),
                         (lambda offers, _k=ak: next((CM.PerMessageBrotliOfferAccept(x, **_k) for x in offers
                                                      if isinstance(x, CM.PerMessageBrotliOffer)), None)),
                         lambda r: CM.PerMessageBrotliResponseAccept(r) if isinstance(r, CM.PerMessageBrotliResponse) else None))
+        # the client decides on its own not to keep its compression context
+        out.append(("clinct", CM.PerMessageBrotliOffer(),
+                    (lambda offers: next((CM.PerMessageBrotliOfferAccept(x) for x in offers
+                                          if isinstance(x, CM.PerMessageBrotliOffer)), None)),
+                    lambda r: CM.PerMessageBrotliResponseAccept(r, no_context_takeover=True)
+                    if isinstance(r, CM.PerMessageBrotliResponse) else None))
         return out
     raise ValueError(ext)
 
